@@ -67,6 +67,41 @@ GRID = ("representation, not a restriction of the input: the exact division `(en
         "definition is invariant under rescaling (DESIGN 11.8; the X run takes the grid cases whose quotients lie on k/64, the F "
         "run and the Fraction oracle cover every case incl. three words in 1/16 s)")
 RULES = [
+    # ---------------------------------------------------------------- statement-level layer for the mutators (DESIGN 11.10)
+    (r"C13\.p?tierStep_refines$|C13\.p?tier_mutator_atomic_stmt$|Imp\.[ip]insertEntry(Py)?_atomic$", r"rep\?? ≠ (some )?\.error", "i",
+     "the documented domain of `collisionReportingMode` is `Literal[\"silence\", \"warning\"]` (the signature; C11's quantifier). "
+     "`'error'` is accepted by `validateOption` and its report is raised AFTER every write: replayed on the real classes (fault "
+     "stream of C13, cases flagged `outside`: the real tier and the statement-level model are left in the same modified state); "
+     "`Imp.exec_iinsertEntry_gen` / `Imp.exec_pinsertEntry_gen` state the outcome for EVERY reporting mode"),
+    (r"C13\.|Imp\.", r"^\(h : exec .* = \(\.error e, [tg]'\)\)$", "res",
+     "names the run the statement is about: it raised `e` and left the object in state `t'` / `g'`"),
+    (r"Imp\.iinsertEntry_atomic$|C13\.tier_mutator_atomic_stmt$", r"hwf : t\.WF", "i",
+     "operand of the property's quantifier (receivers reachable by histories are well-formed: `C05.reachable_wf`). NEEDED: on a "
+     "tier holding an unstripped label the second `deleteEntry` of the `replace`/`merge` loop raises ValueError after the first "
+     "deletion (evaluated on the statement-level model: `#guard`s on `C13.exUnstripped` in Props/C13Atomic.lean); such a tier "
+     "cannot be built through the classes (constructor and `insertEntry` strip, finding A18 fixed); replayed on a real tier by "
+     "writing `tier._entries` directly: same ValueError, same remaining entry; refinement (`Imp.exec_iinsertEntry_gen`) holds for EVERY tier"),
+    (r"Imp\.renameTier_atomic$|C13\.tg_mutator_atomic_stmt$", r"AnyWF", "i",
+     "operand of the property's quantifier (the tiers of a reachable textgrid are well-formed). NEEDED: `renameTier` evaluates "
+     "`oldTier.new(newName, oldTier.entries)` — a constructor call that validates again — AFTER `removeTier(oldName)` (textgrid.py "
+     "L522-523); on a tier with overlapping entries it raises TextgridStateError and the tier is gone (`#guard`s on `C13.exBad`); "
+     "replayed on the real classes by writing `tier._entries` directly (not reachable through the API): same loss. Refinement "
+     "(`Imp.exec_renameTier`) holds for every textgrid with unique names"),
+    (r"Imp\.exec_replaceRestore$|Imp\.exec_replaceTierCore$", r"hk : C12\.idxOf|hold : ", "res",
+     "case distinction: the replaced name is present (`hk`, `hold` name its position and tier); an absent name raises ValueError in "
+     "the first statement (`Imp.exec_replaceTier`, `Imp.replaceTierPy_atomic` treat both cases)"),
+    (r"Imp\.exec_replaceTierCore$", r"hfail", "ii",
+     "what `replaceTier`'s `except` block relies on: the call inside the `try` leaves the textgrid alone when it raises, and raises "
+     "PraatioExceptions only — PROVED of `addTier` (`Imp.exec_addTier`, `C13.addTier_fails_before_mutation`) and of `addTier` with an "
+     "invalid option (`Imp.exec_addTierPy`); the seeded variants that break it are caught by op imp_tg_replace"),
+    (r"Imp\.exec_replaceTierPy_invalid$", r"hn : n ∈ g\.names", "res",
+     "case distinction: a present name (the rollback runs); an absent one raises ValueError before anything (`Imp.replaceTierPy_atomic`)"),
+    (r"C13\.exec_mutF_collision$", r"hx : x\.s < x\.e|hcol", "res",
+     "the family of counter-examples to the seeded variant: any colliding insert of a positive-length entry (a zero-length one "
+     "is refused by the crop before the moved span update)"),
+    (r"C13\.exec_mutB_fail$", r"hk|hold|ha", "res",
+     "the family of counter-examples to the seeded variant: the replaced name is present (`hk`, `hold` name its position and "
+     "tier) and `addTier` of the new tier fails (`ha`)"),
     # ---------------------------------------------------------------- code brought inside the model later (DESIGN 11.8)
     (r"Scripts\.", r"SplitGrid|hdiv", "i", GRID),
     (r"Scripts\.(split_|spell_spec)", r"getTier (src|target) = \.ok \(\.I", "i",
